@@ -647,8 +647,11 @@ class Performance(object):
         self.performedparts[index] = pp
 
     def __iter__(self) -> Iterator[PerformedPart]:
+        # a fresh iterator per loop: nested or interleaved iterations over the
+        # same container must not share a cursor (iter_idx is kept for
+        # code that calls next() on the container itself)
         self.iter_idx = 0
-        return self
+        return iter(self.performedparts)
 
     def __next__(self) -> PerformedPart:
         if self.iter_idx == len(self.performedparts):
